@@ -14,7 +14,9 @@ PROPS = ['PGA.Props.C03']
 GEN = []
 OBLIGATIONS = ['PGA.Scheme.' + t for t in [
     'C03_cnt_relabel', 'C03_centres_relabel', 'C03_groupName_relabel', 'C03_groupCount_relabel',
-    'C03_distinctSets_relabel', 'C03_remap_depends_on_counts_only', 'C03_descriptors_relabel']]
+    'C03_distinctSets_relabel', 'C03_remap_depends_on_counts_only', 'C03_descriptors_relabel']] + ['PGA.C03.' + t for t in [
+    'C03_aromatize_ring_equiv', 'C03_aromatize_rings_equiv', 'C03_aromatize_rotation_reflection',
+    'C03_aromatize_order_partial', 'C03_aromatize_order_full_fails']]
 RULE = ('cases = (scheme, molecule, spelling): every molecule of the fixed pools and grown molecules, each written in several '
         'ways (random atom order incl. branch order and ring-closure choices, explicit vs implicit H, Kekule vs aromatic, '
         'molecule object vs SMILES; all atom permutations for <= 5 heavy atoms in the thorough tier), for the nine shipped '
@@ -67,9 +69,56 @@ def compare(ctx, name, lib, base_smi, base, other, other_res, form):
     ctx.violation('equivalent inputs give different descriptors', inp, base, other_res, finding=finding)
 
 
+AROM_POOL = ['c1ccccc1', 'Cc1ccccc1', 'c1ccc2ccccc2c1', 'Cc1cccc2ccccc12', 'c1ccc2c(C)cccc2c1', 'c1ccc2cc3ccccc3cc2c1',
+             'c1ccc2c(c1)ccc1ccccc12', 'c1ccc(cc1)c1ccccc1', 'C1=CC=CC=C1C1=CC=CC=C1', 'c1ccc2c(c1)CCC2', 'c1ccc2c(c1)CCCC2',
+             'C1=CC=CCC1', 'C1=CCC=CC1', 'c1ccncc1', 'c1ccc2ncccc2c1', 'Oc1ccccc1', 'C1CCCCC1', 'c1cc2cccc3ccc4cccc1c4c32',
+             'C1=CC2=CC=CC=C2C=C1', 'C1=CC=C2C=CC=CC2=C1', 'c1ccc2[nH]ccc2c1', 'O=C1C=CC(=O)C=C1', 'C1=CC=C[CH]C1', '[CH2]c1ccccc1',
+             'c1ccc2c(c1)oc1ccccc12', 'C1=CC=C(C=C1)[Pt]', 'c1ccccc1O~[Pt]']
+
+
+def aromatize_tie(ctx, spellings):
+    """The implementation's `_aromatization_Benson` called directly on the raw graph of each spelling vs the Lean model
+    `aromatizeBenson` (`c03.aromatize`): aromatic flags and bond kinds, plus which rings the model finds eligible."""
+    from pgradd.GroupAdd import Scheme as M
+    from . import lib_mol
+    reqs, meta = [], []
+    for sp in spellings:
+        mol = S.prepare(sp, aromatize=False)
+        if mol is None:
+            continue
+        try:
+            g = lib_mol.mol_to_json(mol)
+            M._aromatization_Benson(mol)
+            g2 = lib_mol.mol_to_json(mol)
+        except lib_mol.UnsupportedGraph:
+            continue
+        except Exception as e:
+            ctx.violation('the aromatic perception escapes with an exception', {'smiles': sp}, None, type(e).__name__)
+            continue
+        if g2['rings'] != g['rings']:
+            raise common.MachineryError('A-graph: ring list changes during the perception for %r' % sp)
+        reqs.append({'op': 'c03.aromatize', 'mol': g})
+        meta.append((sp, {'arom': [a[3] for a in g2['atoms']], 'kinds': [b[2] for b in g2['bonds']]}))
+    replies = ctx.model(reqs)
+    if replies is None:
+        return
+    for (sp, impl), rep in zip(meta, replies):
+        ctx.count('corr_c03.aromatize')
+        ctx.count('aromatize_eligible_rings_%d' % sum(rep['eligible']))
+        if not (rep['wf'] and rep['bonded']):
+            raise common.MachineryError('A-graph: ill-formed graph for %r' % sp)
+        if impl['arom'] != rep['arom'] or impl['kinds'] != rep['kinds']:
+            ctx.disagree('corr:c03.aromatize', {'smiles': sp}, impl, {'arom': rep['arom'], 'kinds': rep['kinds']})
+
+
 def run(ctx):
     rng = ctx.rng
     libs_ = S.load_schemes()
+    arom = []
+    for smi in AROM_POOL + G.FIXED_GAS[:60] + [G.gen_smiles(rng, 'gas', 12) for _ in range(ctx.n(40, 600))]:
+        arom.append(smi)
+        arom.extend(G.spellings(rng, smi, ctx.n(4, 12)))
+    aromatize_tie(ctx, arom)
     for fname, rec in common.load_corpus('C03'):
         ctx.count('corpus')
         replay(ctx, rec)
